@@ -60,6 +60,7 @@ type SplitSpec struct {
 
 type FuncContract struct {
 	Split     *SplitSpec
+	IH        []*Clause
 	Key       string // "Name" or "Recv.Name"
 	Pkg       string
 	Mode      string // "int" (default) or "bv"
@@ -79,6 +80,7 @@ type FuncContract struct {
 	Wraps     bool // signed arithmetic wraps silently (no overflow obligations)
 	NoTerm    bool
 	NoMerge   bool
+	Traced    []string
 	Ghosts    []*Clause
 	File      string
 	Line      int
@@ -111,8 +113,8 @@ var clauseKeywords = map[string]bool{
 	"decreases": true, "loop": true, "invariant": true, "at": true, "assert": true, "ghost": true,
 	"mode": true, "trusted": true, "inline": true, "pure": true, "axiom": true, "global": true,
 	"type": true, "lemma": true, "props": true, "wraps": true, "unroll": true, "uses": true,
-	"guarded_by": true, "noterm": true, "nomerge": true, "recspec": true, "opaque": true, "assume": true, "havoc": true,
-	"split": true, "stdlib": true, "defspec": true,
+	"guarded_by": true, "noterm": true, "nomerge": true, "traced": true, "recspec": true, "opaque": true, "assume": true, "havoc": true,
+	"split": true, "stdlib": true, "defspec": true, "ih": true, "apply": true,
 }
 
 func parseContractFile(path string, pkg string, pc *PkgContracts) error {
@@ -305,6 +307,11 @@ func parseContractFile(path string, pkg string, pc *PkgContracts) error {
 			cur.Pure = true
 		case "wraps":
 			cur.Wraps = true
+		case "traced":
+			// traced f: calls of the function-valued parameter f are recorded in ghost tr_f (sequence) and ntr_f (count)
+			for _, n := range strings.Fields(strings.ReplaceAll(rest, ",", " ")) {
+				cur.Traced = append(cur.Traced, n)
+			}
 		case "noterm":
 			cur.NoTerm = true
 		case "nomerge":
@@ -346,6 +353,19 @@ func parseContractFile(path string, pkg string, pc *PkgContracts) error {
 				cur.Anchors[a] = curAnchor
 			}
 			curLoop = nil
+		case "apply":
+			// apply lemmaName(args): instantiate a proved lemma at an anchor (its requires become obligations)
+			if curAnchor == nil {
+				return bad("apply outside an 'at' anchor")
+			}
+			e, err := parseSpec(rest)
+			if err != nil {
+				return bad("%v", err)
+			}
+			if e.Op != "call" {
+				return bad("apply needs lemma(args)")
+			}
+			curAnchor.Clauses = append(curAnchor.Clauses, &Clause{Kind: "apply", Src: rest, Expr: e, Line: rl.line, File: path})
 		case "requires", "ensures", "panics_if", "invariant", "decreases", "assert", "assume":
 			c, err := mk(kw, rest, rl.line)
 			if err != nil {
@@ -395,6 +415,20 @@ func parseContractFile(path string, pkg string, pc *PkgContracts) error {
 			} else {
 				return bad("modifies outside func")
 			}
+		case "ih":
+			// explicit induction-hypothesis instance for a lemma: ih e1, e2, ... (one expression per lemma parameter)
+			if cur == nil || !cur.Lemma {
+				return bad("ih outside lemma")
+			}
+			c := &Clause{Kind: "ih", Src: rest, Line: rl.line, File: path}
+			for _, part := range splitTop(rest, ',') {
+				e, err := parseSpec(strings.TrimSpace(part))
+				if err != nil {
+					return bad("%v", err)
+				}
+				c.List = append(c.List, e)
+			}
+			cur.IH = append(cur.IH, c)
 		case "split":
 			// split <expr> pow2 <lo> <hi>   |   split <expr> values v1 v2 ...
 			f := strings.Fields(rest)
